@@ -105,7 +105,7 @@ class C14(PureCheck):
             "{none,red,gray} fg x {none,blue,black} bg x {absent,False,True}^{bold,underline,invert}, each in every spelling "
             "(numbers+booleans, positional names, fg=/bg= names, style=, fmtfuncs nesting in both orders, copy_with_new_atts, "
             "nested single-attribute fmtstr calls in every order of <=3), overrides of an earlier value, the 25 fmtfuncs "
-            "names, a catalogue of 59 invalid specifications (unknown words, wrong types, contradictions, out-of-range numbers, valid names with stray whitespace), new_with_atts_removed for name subsets, copy_with_new_str, "
+            "names, a catalogue of 59 invalid specifications (unknown words, wrong types, contradictions, out-of-range numbers, valid names with stray whitespace), new_with_atts_removed for name subsets - also right after a restyle of exactly those names that overrode what runs had -, copy_with_new_str, "
             "shared_atts (also over runs whose style values are True / False / None / absent in every arrangement). distinct_nontrivial = distinct (base profile, steps) with a formatted or multi-run base or >=2 items")
     exhaustive = {"quick": False, "thorough": False}
 
@@ -202,6 +202,13 @@ class C14(PureCheck):
             if b["k"] == "f":
                 for names_ in ([], ["fg"], ["bg", "bold"], ["underline"], ["fg", "bg", "bold", "underline", "invert"], ["nonexistent"], ["bold"]):
                     yield {"op": "remove", "f": b["v"], "names": names_}
+                # highlight, then un-highlight: the value is restyled (overriding what some runs already had) and the very
+                # next call removes exactly the restyled names - in either order - or fewer / more of them
+                for vec, nm in (([5, 0, 0, 0, 0, 0, 0, 0], ["fg"]), ([0, 3, 2, 0, 0, 0, 0, 0], ["bg", "bold"]), ([3, 0, 0, 0, 0, 1, 0, 0], ["underline", "fg"]),
+                                ([0, 0, 1, 0, 0, 0, 0, 0], ["bold"]), ([2, 5, 2, 0, 0, 2, 0, 2], ["fg", "bg", "bold", "underline", "invert"])):
+                    for via in ("copy", "fmtstr"):
+                        for names_ in (nm, nm[::-1], nm[:1], nm + ["blink"]):
+                            yield {"op": "remove", "f": b["v"], "names": names_, "restyle": {"via": via, "atts": vec}}
                 for t in ("", "xy", "q"):
                     yield {"op": "newstr", "f": b["v"], "t": [ord(c) for c in t]}
                 yield {"op": "shared", "f": b["v"]}
@@ -257,6 +264,11 @@ class C14(PureCheck):
                     pass
         elif op == "remove":
             f = enc.build_fmtstr(inp["f"])
+            if inp.get("restyle"):
+                from curtsies.formatstring import fmtstr
+                kw = enc.dec_atts(inp["restyle"]["atts"])
+                f = f.copy_with_new_atts(**kw) if inp["restyle"]["via"] == "copy" else fmtstr(f, **kw)
+                ev["f"] = enc.enc_fmtstr(f)          # the operand of the recorded call is the value as restyled
             ev["res"] = fmtlib.enc_res(lambda: f.new_with_atts_removed(*inp["names"]))
         elif op == "newstr":
             f = enc.build_fmtstr(inp["f"])
